@@ -13,6 +13,13 @@ TRANSPARENT = {
 SHOW_GENERIC = {"parse": 0, "try_into": 1, "collect": 1, "digest": None, "new": None}
 
 
+def hash_name(tystr):
+    for h in ("Sha256", "Sha512", "Sha384", "Sha224", "Sha1", "Md5"):
+        if h + "VarCore" in tystr or ("::" + h) in tystr or tystr.endswith(h):
+            return h
+    return lib.norm(tystr).split("::")[-1].split("<")[0]
+
+
 def type_arg(bv, bi, idx):
     t = bv.blocks[bi]["t"]
     ss = [s for s in t.get("substs", [])]
@@ -62,6 +69,11 @@ def render(bv, t, world=None, names=None, depth=0, transparent=TRANSPARENT):
         return "%s{%s}" % (nm_, ", ".join(r(a) for a in t[3]))
     if k == "call":
         callee = lib.norm(t[1])
+        if callee in ("std::hint::must_use", "std::fmt::format", "alloc::fmt::format") and t[2]:
+            ft = format_term(bv, t)
+            if ft is not None and ft[0] is not None:
+                return "fmt(%r%s)" % (ft[0], "".join(", %s(%s)" % (kd, r(a)) for kd, a in ft[1]))
+            return r(t[2][0])
         if callee in transparent and t[2]:
             return r(t[2][0])
         name = callee.split("::")[-1]
@@ -78,7 +90,7 @@ def render(bv, t, world=None, names=None, depth=0, transparent=TRANSPARENT):
             if callee.endswith("Digest::digest") or callee.endswith("Digest::new") or callee.endswith("Digest::finalize") or callee.endswith("Digest::update"):
                 st = type_arg(bv, t[3], 0)
                 if st:
-                    name = "%s::%s" % (lib.norm(st).split("::")[-1].split("<")[0], name)
+                    name = "%s::%s" % (hash_name(st), name)
         return "%s(%s)" % (name, ", ".join(r(a) for a in t[2]))
     if k == "binop":
         return "%s(%s, %s)" % (t[1], r(t[2]), r(t[3]))
@@ -91,6 +103,138 @@ def render(bv, t, world=None, names=None, depth=0, transparent=TRANSPARENT):
     if k == "subslice":
         return "%s[%d..%s%d]" % (r(t[1]), t[2], "-" if t[4] else "", t[3])
     return fmt_t(t)
+
+
+def decode_fmt(b):
+    """Decode a fmt::Arguments template (encoding documented in core/src/fmt/mod.rs of this toolchain)
+    into a format string with explicit positional arguments, or None."""
+    out = []
+    i = 0
+    nxt = 0
+    n = len(b)
+    while i < n:
+        c = b[i]
+        if c == 0:
+            return "".join(out)
+        if c & 0xC0 == 0xC0:
+            i += 1
+            spec = ""
+            idx = None
+            if c & 0x01:
+                spec += ":flags=%x" % int.from_bytes(b[i:i + 4], "little")
+                i += 4
+            if c & 0x02:
+                spec += ":w%d" % int.from_bytes(b[i:i + 2], "little")
+                i += 2
+            if c & 0x04:
+                spec += ":p%d" % int.from_bytes(b[i:i + 2], "little")
+                i += 2
+            if c & 0x08:
+                idx = int.from_bytes(b[i:i + 2], "little")
+                i += 2
+            if idx is None:
+                idx = nxt
+            nxt = idx + 1
+            out.append("{%d%s}" % (idx, spec))
+        elif c == 0x80:
+            ln = int.from_bytes(b[i + 1:i + 3], "little")
+            out.append(bytes(b[i + 3:i + 3 + ln]).decode("utf-8", "replace").replace("{", "{{").replace("}", "}}"))
+            i += 3 + ln
+        elif c < 0x80:
+            out.append(bytes(b[i + 1:i + 1 + c]).decode("utf-8", "replace").replace("{", "{{").replace("}", "}}"))
+            i += 1 + c
+        else:
+            return None
+    return None
+
+
+def format_term(bv, t):
+    """If t is `format!(..)`/`format_args!` (fmt::format(Arguments::new(template, &[args]))) return
+    (format string, [(kind, arg term)]) else None."""
+    x = t
+    while x[0] in ("ref", "deref") or (x[0] == "call" and lib.norm(x[1]) in ("std::hint::must_use", "std::fmt::format", "alloc::fmt::format") and x[2]):
+        x = x[1] if x[0] in ("ref", "deref") else x[2][0]
+    if not (x[0] == "call" and lib.norm(x[1]).endswith("fmt::Arguments::<'a>::new") and len(x[2]) == 2):
+        if x[0] == "call" and lib.norm(x[1]).endswith("fmt::Arguments::<'a>::from_str") and x[2]:
+            v = lib.term_const(bv.crate, _unref(x[2][0]))
+            return (v.replace("{", "{{").replace("}", "}}"), []) if isinstance(v, str) else None
+        return None
+    tpl = lib.term_const(bv.crate, _unref(x[2][0]))
+    if not isinstance(tpl, (bytes, bytearray)):
+        return None
+    fs = decode_fmt(bytes(tpl))
+    arr = _unref(x[2][1])
+    args = []
+    if arr[0] == "agg" and arr[1] == "array":
+        for a in arr[3]:
+            a = _unref(a)
+            if a[0] == "call" and "fmt::rt::Argument" in a[1]:
+                kind = a[1].split("::")[-1].replace("new_", "")
+                args.append((kind, a[2][0]))
+            else:
+                args.append(("?", a))
+    return (fs, args)
+
+
+def _unref(t):
+    while t[0] in ("ref", "deref") or (t[0] == "cast" and "PointerCoercion" in t[1]):
+        t = t[2] if t[0] == "cast" else t[1]
+    return t
+
+
+def digest_chain(bv, world, finalize_bi, names=None, transparent=TRANSPARENT):
+    """For a `Digest::finalize(h)` call at block finalize_bi: the rendered sequence of data fed into h
+    (new / new_with_prefix / update / chain_update, in CFG order on the straight-line path) and the
+    hash type, or None when the hasher is updated on a branching path."""
+    t = bv.blocks[finalize_bi]["t"]
+    a0 = t["args"][0]
+    pl = a0.get("m") or a0.get("c")
+    if pl is None or pl.get("p"):
+        return None
+    # resolve plain moves back to the hasher local
+    h = pl["l"]
+    seen = set()
+    while True:
+        ds = [d for d in bv.defs.get(h, []) if d[0] in bv.reach0]
+        if len(ds) == 1 and ds[0][2] == "rv" and ds[0][3]["k"] == "use":
+            src = ds[0][3]["o"].get("m") or ds[0][3]["o"].get("c")
+            if src and not src.get("p") and src["l"] not in seen:
+                seen.add(h)
+                h = src["l"]
+                continue
+        break
+    ds = [d for d in bv.defs.get(h, []) if d[0] in bv.reach0]
+    if len(ds) != 1 or ds[0][2] != "call":
+        return None
+    start_bi = ds[0][0]
+    st = ds[0][3]
+    parts = []
+    hty = type_arg(bv, start_bi, 0)
+    cal = lib.norm(st.get("callee") or "")
+    if cal.endswith("Digest::new_with_prefix"):
+        parts.append(render(bv, bv.trace_op(st["args"][0]), world, names, transparent=transparent))
+    elif not cal.endswith("Digest::new"):
+        return None
+    # walk the straight line from new() to finalize
+    cur = start_bi
+    guard = 0
+    while cur != finalize_bi and guard < 200:
+        guard += 1
+        ss = bv.succ[cur]
+        if len(ss) != 1:
+            return None
+        cur = ss[0]
+        tt = bv.blocks[cur]["t"]
+        if tt["k"] == "call" and cur != finalize_bi:
+            c2 = lib.norm(tt.get("callee") or "")
+            if c2.endswith("Digest::update") or c2.endswith("Digest::chain_update"):
+                recv = _unref(bv.trace_op(tt["args"][0]))
+                # the receiver must be our hasher
+                rl = (tt["args"][0].get("m") or tt["args"][0].get("c") or {})
+                parts.append(render(bv, bv.trace_op(tt["args"][1]), world, names, transparent=transparent))
+    if cur != finalize_bi:
+        return None
+    return (hash_name(hty or "?"), parts)
 
 
 def arm_terms(bv, sbi, local=0):
